@@ -133,9 +133,10 @@ def run(prog, rep, tier='quick'):
     if cw is None:
         raise AnalysisError('create_window vanished')
     wwp = None
-    for node in ast.walk(cw):
+    # the table may live in the factory, in a helper it calls, or at module level
+    for node in list(ast.walk(cw)) + list(ast.walk(m.tree)):
         if isinstance(node, ast.Assign) and isinstance(node.targets[0], ast.Name) and node.targets[0].id == 'windows_with_parameters' \
-                and isinstance(node.value, ast.Dict):
+                and isinstance(node.value, ast.Dict) and wwp is None:
             wwp = node.value
     if wwp is None:
         raise AnalysisError('create_window.windows_with_parameters is no longer a literal dict')
@@ -187,7 +188,7 @@ def run(prog, rep, tier='quick'):
                 v = None
             n_fwd += 1
             label = '%s(%s)' % (name, ','.join(kwspec) or '')
-            calls = [c for c in itp.watch[fq] if c['caller'] == 'window.create_window']
+            calls = list(itp.watch[fq])        # reached from the factory (directly or through a private helper)
             if not should_return:
                 if v is None and not calls:
                     rep.proved('forwarding', 'window.create_window', label, 'unknown keyword raises', where)
